@@ -381,6 +381,27 @@ def trace(run):
     judge_events(run, evs, 'trace')
 
 
+LIT_TEXTS = ['aB.c', 'a\\b?', 'B\\\\?', '?\\', '*\\n', "it's", 'x{0}%', '\\', 'a\\tb*', 'q?*~', 'a\nb?']
+
+
+def literal_texts(run):
+    """the text typed INTO the formula as a literal (not held by a cell) - among them texts with a wildcard character and a
+    backslash, which the lexer reads as pattern literals - and counts that are results of a division (the same whole numbers as floats)"""
+    evs = []
+    for t in LIT_TEXTS:
+        lit = '"' + t + '"'
+        forms, meta = [], []
+        for n in range(0, len(t) + 2):
+            forms += [f'=LEFT({lit},{n})', f'=RIGHT({lit},{n})', f'=MID({lit},1,{n})', f'=MID({lit},{max(1, n)},2)', f'=LEFT({lit},{2 * n}/2)', f'=MID({lit},{2 * max(1, n)}/2,4/2)']
+            meta += [('LEFT', [n]), ('RIGHT', [n]), ('MID', [1, n]), ('MID', [max(1, n), 2]), ('LEFT', [n]), ('MID', [max(1, n), 2])]
+        forms += [f'=LEFT({lit},1)&MID({lit},2,{len(t)})', f'={lit}&""']
+        meta += [('REBUILD', [1]), ('REBUILD', [1])]
+        res = repo.Probe(forms).eval()
+        for (f, a), r, form in zip(meta, res, forms):
+            evs.append({'f': f, 't': t, 'p': '', 'a': a, 'obs': obs_of(*r), 'formula': form})
+    judge_events(run, evs, 'literal_texts')
+
+
 def check(run):
     run.rule = ('texts over a mixed-case alphabet with wildcard and regex-special characters enumerated by TLC: LEFT/RIGHT/MID for every text x counts '
                 'and positions -1..L+2 (+ the rebuild identity), SEARCH for every (pattern, text) x start position, &/CONCATENATE operand vectors, '
@@ -396,6 +417,7 @@ def check(run):
             workers=16, timeout=3000)
     gen(run)
     trace(run)
+    literal_texts(run)
 
 
 def replay(run, case):
